@@ -130,7 +130,11 @@ func (k *keyring) add(s cipher.SecKey) int {
 	if id, ok := k.byS[s]; ok {
 		return id
 	}
-	a := cipher.MustAddressFromSecKey(s)
+	a, err := cipher.AddressFromSecKey(s)
+	if err != nil { // an invalid secret in a wallet entry: a key of its own with no usable address
+		copy(a.Key[:], s[:20])
+		a.Version = 0xEE
+	}
 	k.secs = append(k.secs, s)
 	k.addrs = append(k.addrs, a)
 	id := len(k.secs)
@@ -155,6 +159,7 @@ type wlt struct {
 	kind    string
 	enc     bool
 	entries []int // key ids of GetEntries() in order (nil when the secrets are not available)
+	addrs   []cipher.Address // the wallet's addresses as the wallet reports them (entry.Address / GetAddresses)
 	label   string
 }
 
@@ -179,6 +184,13 @@ func (k *keyring) describe(w wallet.Wallet, label string) (*wlt, error) {
 		}
 		for _, e := range es {
 			out.entries = append(out.entries, k.add(e.Secret))
+			out.addrs = append(out.addrs, e.SkycoinAddress())
+		}
+	} else if as, err := w.GetAddresses(); err == nil {
+		for _, a := range as {
+			if sa, ok := a.(cipher.Address); ok {
+				out.addrs = append(out.addrs, sa)
+			}
 		}
 	}
 	return out, nil
@@ -221,13 +233,106 @@ func run(args []string) error {
 	}
 	seed := fmt.Sprintf("c13 seed %d", f.Seed)
 	fast := wallet.OptionCryptoType(crypto.CryptoTypeSha256Xor)
+	pwd := []byte("pwd")
+	gen := func(w wallet.Wallet, n uint64, change bool) string {
+		opts := []wallet.Option{wallet.OptionGenerateN(n)}
+		if change {
+			opts = append(opts, wallet.OptionChange())
+		}
+		if _, err := w.GenerateAddresses(opts...); err != nil {
+			return "(refused)"
+		}
+		return ""
+	}
+	reload := func(w wallet.Wallet) (wallet.Wallet, error) {
+		data, err := w.Serialize()
+		if err != nil {
+			return nil, err
+		}
+		w2 := w.Clone()
+		if err := w2.Deserialize(data); err != nil {
+			return nil, err
+		}
+		return w2, nil
+	}
+	// ---- wallets that can sign, each reached through a HISTORY (lock, generate while locked on
+	// both chains, unlock, generate, reload); inputs are later owned by addresses of every stage
 	dw, err := deterministic.NewWallet("d.wlt", "det", seed, wallet.OptionGenerateN(6))
 	if e := addW(dw, err, "deterministic"); e != nil {
 		return e
 	}
-	bw, err := bip44wallet.NewWallet("b.wlt", "bip44", testMnemonic, "", wallet.OptionGenerateN(5))
-	if e := addW(bw, err, "bip44"); e != nil {
-		return e
+	{
+		w, err := deterministic.NewWallet("d2.wlt", "det2", seed+" h", wallet.OptionGenerateN(3), fast)
+		lab := "deterministic"
+		var u wallet.Wallet
+		if err == nil {
+			err = w.Lock(pwd)
+			lab += ",lock,gen-locked" + gen(w, 2, false)
+		}
+		if err == nil {
+			u, err = w.Unlock(pwd)
+			lab += ",unlock"
+		}
+		if err == nil {
+			lab += ",gen" + gen(u, 2, false)
+			u, err = reload(u)
+			lab += ",reload"
+		}
+		if e := addW(u, err, lab); e != nil {
+			return e
+		}
+	}
+	{
+		w, err := bip44wallet.NewWallet("b.wlt", "bip44", testMnemonic, "", wallet.OptionGenerateN(4))
+		lab := "bip44"
+		if err == nil {
+			lab += ",gen-change" + gen(w, 3, true)
+		}
+		if e := addW(w, err, lab); e != nil {
+			return e
+		}
+	}
+	{
+		w, err := bip44wallet.NewWallet("b2.wlt", "bip44e", testMnemonic, "x", wallet.OptionGenerateN(2), wallet.OptionEncrypt(true), wallet.OptionPassword(pwd), fast)
+		lab := "bip44,created-encrypted"
+		var u wallet.Wallet
+		if err == nil {
+			lab += ",gen-locked-ext" + gen(w, 2, false)
+			lab += ",gen-locked-change" + gen(w, 3, true)
+			u, err = w.Unlock(pwd)
+			lab += ",unlock"
+		}
+		if e := addW(u, err, lab); e != nil {
+			return e
+		}
+	}
+	{
+		w, err := bip44wallet.NewWallet("b3.wlt", "bip44h", testMnemonic, "y", wallet.OptionGenerateN(2), fast)
+		lab := "bip44"
+		var u wallet.Wallet
+		if err == nil {
+			lab += ",gen-change" + gen(w, 1, true)
+			err = w.Lock(pwd)
+			lab += ",lock"
+		}
+		if err == nil {
+			lab += ",gen-locked-change" + gen(w, 2, true)
+			lab += ",gen-locked-ext" + gen(w, 1, false)
+			u, err = reload(w)
+			lab += ",reload"
+		}
+		if err == nil {
+			u, err = u.Unlock(pwd)
+			lab += ",unlock"
+		}
+		if err == nil {
+			lab += ",gen-change" + gen(u, 1, true)
+			u, err = reload(u)
+			lab += ",reload"
+		}
+		if e := addW(u, err, lab); e != nil {
+			return e
+		}
 	}
 	var colKeys []cipher.SecKey
 	for i := 0; i < 5; i++ {
@@ -242,17 +347,52 @@ func run(args []string) error {
 	if e := addW(cw, err, "collection"); e != nil {
 		return e
 	}
+	{
+		w, err := collection.NewWallet("c2.wlt", "col2", wallet.OptionCollectionPrivateKeys(colKeys[1:4]), fast)
+		lab := "collection"
+		var u wallet.Wallet
+		if err == nil {
+			err = w.Lock(pwd)
+			lab += ",lock"
+		}
+		if err == nil {
+			u, err = reload(w)
+			lab += ",reload"
+		}
+		if err == nil {
+			u, err = u.Unlock(pwd)
+			lab += ",unlock"
+		}
+		if e := addW(u, err, lab); e != nil {
+			return e
+		}
+	}
+	nSigners := len(wallets)
+	// ---- wallets that cannot sign
 	xw, err := xpubwallet.NewWallet("x.wlt", "xpub", testXPub, wallet.OptionGenerateN(4))
-	if e := addW(xw, err, "xpub"); e != nil {
+	if err == nil {
+		gen(xw, 2, false)
+	}
+	if e := addW(xw, err, "xpub,gen"); e != nil {
 		return e
 	}
-	ew, err := deterministic.NewWallet("e.wlt", "enc", seed+" enc", wallet.OptionGenerateN(4), wallet.OptionEncrypt(true), wallet.OptionPassword([]byte("pwd")), fast)
+	ew, err := deterministic.NewWallet("e.wlt", "enc", seed+" enc", wallet.OptionGenerateN(4), wallet.OptionEncrypt(true), wallet.OptionPassword(pwd), fast)
 	if e := addW(ew, err, "deterministic-encrypted"); e != nil {
 		return e
 	}
-	ecw, err := collection.NewWallet("ec.wlt", "enccol", wallet.OptionCollectionPrivateKeys(colKeys[:2]), wallet.OptionEncrypt(true), wallet.OptionPassword([]byte("pwd")), fast)
+	ecw, err := collection.NewWallet("ec.wlt", "enccol", wallet.OptionCollectionPrivateKeys(colKeys[:2]), wallet.OptionEncrypt(true), wallet.OptionPassword(pwd), fast)
 	if e := addW(ecw, err, "collection-encrypted"); e != nil {
 		return e
+	}
+	{
+		w, err := bip44wallet.NewWallet("b4.wlt", "bip44l", testMnemonic, "z", wallet.OptionGenerateN(2), wallet.OptionEncrypt(true), wallet.OptionPassword(pwd), fast)
+		lab := "bip44-encrypted"
+		if err == nil {
+			lab += ",gen-locked-change" + gen(w, 2, true)
+		}
+		if e := addW(w, err, lab); e != nil {
+			return e
+		}
 	}
 	emptyW, err := collection.NewWallet("n.wlt", "empty")
 	if e := addW(emptyW, err, "collection-empty"); e != nil {
@@ -279,7 +419,7 @@ func run(args []string) error {
 	for i := 0; i < n; i++ {
 		w := wallets[r.Intn(len(wallets))]
 		if r.Chance(70) { // most cases on wallets that can sign
-			w = wallets[r.Intn(3)]
+			w = wallets[r.Intn(nSigners)]
 		}
 		nin := []int{1, 1, 2, 2, 3, 3, 4, 5, 6}[r.Intn(9)]
 		labels := []string{w.label}
@@ -288,8 +428,11 @@ func run(args []string) error {
 		ownerKey := make([]int, nin) // key id or 0
 		for j := 0; j < nin; j++ {
 			switch c := r.Intn(100); {
-			case c < 84 && len(w.entries) > 0:
-				ownerKey[j] = w.entries[r.Intn(len(w.entries))]
+			case c < 84 && len(w.addrs) > 0:
+				// an address the wallet reports as its own (of any stage of its history); the key the
+				// harness knows for it is looked up by the address, never taken from the entry
+				owners[j] = w.addrs[r.Intn(len(w.addrs))]
+				ownerKey[j] = kr.byA[owners[j]]
 			case c < 89 && j > 0:
 				ownerKey[j] = ownerKey[0] // duplicate owner
 			case c < 94:
@@ -299,7 +442,7 @@ func run(args []string) error {
 			default:
 				copy(owners[j].Key[:], r.Bytes(20))
 			}
-			if ownerKey[j] != 0 {
+			if ownerKey[j] != 0 && owners[j].Null() {
 				owners[j] = kr.addrs[ownerKey[j]-1]
 			}
 		}
